@@ -176,3 +176,397 @@ def monitor_c03(trace):
             elif s in v.sessions and code != OK:
                 bad.append((i, 'C_GetSessionInfo failed on an open session (rv=0x%x)' % code))
     return bad
+
+
+# =========================================================================================== objects
+def parse_item(it):
+    """'<type>=<k>:<payload>' -> (type, bytes | None, announced length)"""
+    t, v = it.split('=', 1)
+    k, p = v[0], v[2:]
+    ty = int(t, 0)
+    if k == 'u':
+        return ty, int(p, 0).to_bytes(8, 'little'), 8
+    if k == 'b':
+        return ty, bytes([int(p, 0)]), 1
+    if k == 'x':
+        b = bytes.fromhex(p)
+        return ty, b, len(b)
+    if k == 'n':
+        return ty, None, 0
+    if k == 'N':
+        return ty, None, int(p, 0)
+    return ty, None, -1
+
+
+DATA_DEFAULTS = {0: (0).to_bytes(8, 'little'), 1: b'\x00', 2: b'\x01', 3: b'', 0x10: b'', 0x11: b'', 0x12: b'', 0x170: b'\x01', 0x171: b'\x01', 0x172: b'\x01'}
+BOOL_ATTRS = (1, 2, 0x170, 0x171, 0x172)
+
+
+class ObjView(AppView):
+    """AppView plus what the application knows about the objects it created (by name and by label)"""
+
+    def __init__(self):
+        AppView.__init__(self)
+        self.objs = {}        # name -> label (live handle names of this epoch, as far as the application can know)
+        self.store = {}       # label -> {'tok','attrs': {type: bytes}, 'owner': session name or None}
+        self.nnames = 0
+        self.ambiguous = False
+
+    def flags(self, name):
+        lab = self.objs.get(name)
+        o = self.store.get(lab) if lab is not None else None
+        if o is None:
+            return None
+        return {'tok': o['tok'], 'token': o['attrs'].get(1, b'\x00') != b'\x00', 'private': o['attrs'].get(2, b'\x01') != b'\x00',
+                'owner': o['owner'], 'label': lab}
+
+    def restart(self):
+        AppView.restart(self)
+        self.objs = {}
+        self.nnames = 0
+        for lab in [l for l, o in self.store.items() if o['attrs'].get(1, b'\x00') == b'\x00']:
+            self.store.pop(lab)
+
+    def note_name(self, name):
+        try:
+            self.nnames = max(self.nnames, int(name[1:]) + 1)
+        except ValueError:
+            pass
+
+    def apply(self, i, line, r, bad_c03=None):
+        """update the view with one executed call; returns the list of session/login findings (C03 part)"""
+        w = line.split()
+        op = w[0]
+        code = rv(r)
+        if op == 'newproc':
+            self.restart(); self.initialised = False
+        elif op == 'init' and code == OK:
+            self.restart(); self.initialised = True
+        elif op == 'fini' and code == OK:
+            self.restart(); self.initialised = False
+        if code is None or code != OK:
+            return
+        if op == 'inittoken':
+            tok = self.tok_of_ref(w[1])
+            lab = w[3] if len(w) > 3 else None
+            if w[1] == 'tfree':
+                self.so[lab] = w[2]; self.user[lab] = None; self.login[lab] = 'public'
+            elif tok:
+                self.user[tok] = None; self.login[tok] = 'public'
+                for l in [l for l, o in self.store.items() if o['tok'] == tok]:
+                    self.store.pop(l)
+        elif op == 'open':
+            tok = self.tok_of_ref(w[1])
+            rw = w[2] == 'rw' or (w[2] not in ('ro', 'rw') and int(w[2], 0) & 2 != 0)
+            self.sessions[r['h']] = {'tok': tok, 'rw': rw}
+            self.raw[int(r.get('raw', '0'))] = r['h']
+            self.note_name(r['h'])
+        elif op == 'close':
+            s = self.name(w[1])
+            if s in self.sessions:
+                tok = self.sessions.pop(s)['tok']
+                last = not any(x['tok'] == tok for x in self.sessions.values())
+                if last:
+                    self.login[tok] = 'public'
+                for n in list(self.objs):
+                    f = self.flags(n)
+                    if f and f['tok'] == tok and (last or (not f['token'] and f['owner'] == s)):
+                        self.objs.pop(n)
+                for l in [l for l, o in self.store.items() if o['tok'] == tok and o['attrs'].get(1, b'\x00') == b'\x00' and (last or o['owner'] == s)]:
+                    self.store.pop(l)
+        elif op == 'closeall':
+            tok = self.tok_of_ref(w[1])
+            if tok:
+                self.drop_token_sessions(tok)
+                for n in list(self.objs):
+                    f = self.flags(n)
+                    if f and f['tok'] == tok:
+                        self.objs.pop(n)
+                for l in [l for l, o in self.store.items() if o['tok'] == tok and o['attrs'].get(1, b'\x00') == b'\x00']:
+                    self.store.pop(l)
+        elif op == 'login':
+            s = self.name(w[1])
+            if s in self.sessions and int(w[2], 0) in (0, 1):
+                self.login[self.sessions[s]['tok']] = 'so' if int(w[2], 0) == 0 else 'user'
+        elif op == 'logout':
+            s = self.name(w[1])
+            if s in self.sessions:
+                tok = self.sessions[s]['tok']
+                self.login[tok] = 'public'
+                for n in list(self.objs):
+                    f = self.flags(n)
+                    if f and f['tok'] == tok and f['private']:
+                        self.objs.pop(n)
+                for l in [l for l, o in self.store.items() if o['tok'] == tok and o['attrs'].get(1, b'\x00') == b'\x00' and o['attrs'].get(2, b'\x01') != b'\x00']:
+                    self.store.pop(l)
+        elif op == 'initpin':
+            s = self.name(w[1])
+            if s in self.sessions:
+                self.user[self.sessions[s]['tok']] = w[2]
+        elif op == 'setpin':
+            s = self.name(w[1])
+            if s in self.sessions:
+                tok = self.sessions[s]['tok']
+                if self.login.get(tok) == 'so':
+                    self.so[tok] = w[3]
+                else:
+                    self.user[tok] = w[3]
+        elif op in ('create', 'copy'):
+            s = self.name(w[1])
+            if s not in self.sessions:
+                return
+            tok = self.sessions[s]['tok']
+            if op == 'create':
+                attrs = dict(DATA_DEFAULTS)
+                items = w[2:]
+            else:
+                src = self.flags(self.name(w[2]))
+                if src is None:
+                    self.note_name(r['h'])
+                    return
+                attrs = dict(self.store[src['label']]['attrs'])
+                items = w[3:]
+            for it in items:
+                if '=' in it:
+                    ty, val, ln = parse_item(it)
+                    if val is not None:
+                        if ty in BOOL_ATTRS:
+                            val = b'\x01' if val[:1] != b'\x00' else b'\x00'
+                        if not (op == 'copy' and ty == 0x171 and val == b'\x01'):
+                            attrs[ty] = val
+            lab = attrs.get(3, b'').hex()
+            if lab in self.store:
+                self.ambiguous = True       # two objects with one label: the application can no longer tell them apart by label
+            self.store[lab] = {'tok': tok, 'attrs': attrs, 'owner': s if attrs.get(1, b'\x00') == b'\x00' else None}
+            self.objs[r['h']] = lab
+            self.raw[int(r.get('raw', '0'))] = r['h']
+            self.note_name(r['h'])
+        elif op == 'destroy':
+            n = self.name(w[2])
+            lab = self.objs.pop(n, None)
+            if lab is not None:
+                for m in [m for m, l in self.objs.items() if l == lab]:
+                    self.objs.pop(m)
+                self.store.pop(lab, None)
+        elif op == 'setattr':
+            n = self.name(w[2])
+            lab = self.objs.get(n)
+            if lab in self.store:
+                o = self.store[lab]
+                for it in w[3:]:
+                    if '=' in it:
+                        ty, val, ln = parse_item(it)
+                        if val is not None:
+                            if ty in BOOL_ATTRS:
+                                val = b'\x01' if val[:1] != b'\x00' else b'\x00'
+                            o['attrs'][ty] = val
+                newlab = o['attrs'].get(3, b'').hex()
+                if newlab != lab and newlab in self.store:
+                    self.ambiguous = True
+                if newlab != lab:
+                    self.store[newlab] = self.store.pop(lab)
+                    for m in [m for m, l in self.objs.items() if l == lab]:
+                        self.objs[m] = newlab
+        elif op in ('find', 'findseq'):
+            names = [x for x in r.get('objs', '').split(',') if x]
+            newl = [x for x in r.get('newlabels', '').split(',')] if r.get('newlabels') else []
+            unknown = sorted([n for n in names if int(n[1:]) >= self.nnames], key=lambda n: int(n[1:]))
+            for n, l in zip(unknown, newl):
+                self.objs[n] = l
+            for n in names:
+                self.note_name(n)
+            raws = [int(x) for x in r.get('raws', '').split(',') if x]
+
+
+def monitor_c01(trace):
+    """private objects only with the user logged in; token objects only through R/W sessions"""
+    v = ObjView()
+    bad = []
+    for i, (line, r) in enumerate(trace):
+        w = line.split()
+        op = w[0]
+        code = rv(r)
+        if v.ambiguous:
+            break
+        if code is not None and len(w) > 1:
+            s = v.name(w[1])
+            sess = v.sessions.get(s)
+            if sess is not None:
+                tok = sess['tok']
+                user = v.login.get(tok, 'public') == 'user'
+                rwok = sess['rw'] or v.login.get(tok) == 'so'
+                if op in ('getattr', 'setattr', 'copy', 'destroy', 'encinit', 'decinit', 'signinit', 'verifyinit', 'digestkey'):
+                    hn = v.name(w[3] if op.endswith('init') else w[2])
+                    f = v.flags(hn)
+                    if f is not None and f['private'] and not user:
+                        if code == OK:
+                            bad.append((i, '%s on a private object succeeded without the normal user logged in' % op))
+                        if op == 'getattr':
+                            for (ty, ln, hx) in r.get('attrs', []):
+                                if hx and set(hx.lower()) - set('a5'):
+                                    bad.append((i, 'C_GetAttributeValue wrote attribute bytes of a private object without the user logged in'))
+                    if f is not None and f['token'] and not rwok and op in ('setattr', 'destroy') and code == OK:
+                        bad.append((i, '%s of a token object succeeded in a read-only session' % op))
+                if op == 'create' and code == OK:
+                    priv, token = True, False
+                    for it in w[2:]:
+                        if '=' in it:
+                            ty, val, ln = parse_item(it)
+                            if ty == 2 and val is not None and ln == 1:
+                                priv = val != b'\x00'
+                            if ty == 1 and val is not None and ln == 1:
+                                token = val != b'\x00'
+                    if priv and not user:
+                        bad.append((i, 'a private object was created without the normal user logged in'))
+                    if token and not rwok:
+                        bad.append((i, 'a token object was created through a read-only session'))
+                if op in ('find', 'findseq') and code == OK and not user:
+                    pre = dict(v.objs)
+                    v.apply(i, line, r)
+                    for n in [x for x in r.get('objs', '').split(',') if x]:
+                        f = v.flags(n)
+                        if f is not None and f['private']:
+                            bad.append((i, 'C_FindObjects returned a private object without the normal user logged in'))
+                    if 'ff3f' in (r.get('newlabels') or '').split(','):
+                        # the driver could not read CKA_LABEL of a returned object through this very session:
+                        # only a private object refuses that to a session without the user logged in
+                        bad.append((i, 'C_FindObjects returned a handle to an object this session may not read (a private object) without the normal user logged in'))
+                    continue
+        v.apply(i, line, r)
+    return bad
+
+
+def monitor_c11(trace):
+    """handles never issued twice; exactly the affected handles die"""
+    v = ObjView()
+    bad = []
+    issued = 0
+    for i, (line, r) in enumerate(trace):
+        w = line.split()
+        op = w[0]
+        code = rv(r)
+        if v.ambiguous:
+            break
+        if op in ('newproc',) or (op in ('fini', 'init') and code == OK):
+            issued = 0
+        if code == OK and op in ('open', 'create', 'copy') and 'h' in r:
+            idx = int(r['h'][1:])
+            if idx < issued:
+                bad.append((i, 'handle value %s issued a second time (it already named %s)' % (r.get('raw'), r['h'])))
+            issued = max(issued, idx + 1)
+        if code == OK and op in ('find', 'findseq'):
+            for n in [x for x in r.get('objs', '').split(',') if x]:
+                issued = max(issued, int(n[1:]) + 1)
+                if n in v.sessions:
+                    bad.append((i, 'C_FindObjects returned a value that is a live session handle'))
+        # probes
+        if code is not None and op == 'sinfo' and w[1].startswith('h'):
+            n = w[1]
+            known = int(n[1:]) < issued
+            if n in v.sessions and code != OK:
+                bad.append((i, 'live session handle rejected (rv=0x%x)' % code))
+            if known and n not in v.sessions and code == OK and n not in v.objs:
+                bad.append((i, 'closed session handle still accepted'))
+        if code is not None and op == 'objsize' and w[2].startswith('h') and v.name(w[1]) in v.sessions:
+            n = w[2]
+            if n in v.objs and code != OK:
+                bad.append((i, 'live object handle rejected (rv=0x%x)' % code))
+            if int(n[1:]) < issued and n not in v.objs and n not in v.sessions and getattr(v, 'everknown', {}).get(n) and code == OK:
+                bad.append((i, 'dead object handle still accepted'))
+        before = set(v.objs)
+        v.apply(i, line, r)
+        ek = getattr(v, 'everknown', {})
+        for n in v.objs:
+            ek[n] = True
+        v.everknown = ek
+    return bad
+
+
+def expected_find(v, sess_name, items):
+    sess = v.sessions[sess_name]
+    tok = sess['tok']
+    user = v.login.get(tok, 'public') == 'user'
+    tmpl = []
+    for it in items:
+        if '=' in it:
+            tmpl.append(parse_item(it))
+    out = set()
+    for lab, o in v.store.items():
+        if o['tok'] != tok:
+            continue
+        a = o['attrs']
+        if a.get(2, b'\x01') != b'\x00' and not user:
+            continue
+        ok = True
+        for (ty, val, ln) in tmpl:
+            if ty not in a:
+                ok = False; break
+            have = a[ty]
+            if ty in BOOL_ATTRS:
+                if ln != 1 or val is None or (have != b'\x00') != (val == b'\x01'):
+                    ok = False; break
+            elif ty == 0:
+                if ln != 8 or val != have:
+                    ok = False; break
+            else:
+                if ln != len(have) or (ln != 0 and val != have):
+                    ok = False; break
+        if ok:
+            out.add(lab)
+    return out
+
+
+def monitor_c19(trace):
+    """C_FindObjectsInit + batches return exactly the visible matching objects, each once"""
+    v = ObjView()
+    bad = []
+    active = {}    # session -> {'expected': set(labels), 'got': [labels], 'clean': bool}
+    for i, (line, r) in enumerate(trace):
+        w = line.split()
+        op = w[0]
+        code = rv(r)
+        s = v.name(w[1]) if len(w) > 1 else None
+        if v.ambiguous:
+            break
+        if op == 'findinit' and code == OK and s in v.sessions:
+            active[s] = {'expected': expected_find(v, s, w[2:]), 'got': [], 'clean': True, 'done': False}
+        elif op in ('find', 'findseq') and code == OK and s in active:
+            a = active[s]
+            names = [x for x in r.get('objs', '').split(',') if x]
+            sizes = [int(z, 0) for z in w[2:]]
+            mx = sum(sizes)
+            got_ns = [int(x) for x in r.get('ns', r.get('n', '0')).split(',') if x != '']
+            if r.get('over') == '1' or any(g > z for g, z in zip(got_ns, sizes)):
+                bad.append((i, 'C_FindObjects returned more handles than asked for'))
+            # every batch but the last non-empty one must be full: min(max, remaining)
+            for bi, (g, z) in enumerate(zip(got_ns, sizes)):
+                if g < z and any(x > 0 for x in got_ns[bi + 1:]):
+                    bad.append((i, 'a C_FindObjects batch was short although handles remained'))
+            if r.get('dup') == '1':
+                bad.append((i, 'C_FindObjects returned a handle twice in one batch'))
+            v.apply(i, line, r)
+            for n in names:
+                lab = v.objs.get(n)
+                a['got'].append(lab)
+            if any(g < z for g, z in zip(got_ns, sizes)):
+                a['done'] = True
+            if a['clean']:
+                got = [g for g in a['got'] if g is not None]
+                if len(got) != len(set(got)):
+                    bad.append((i, 'an object was returned twice by one search'))
+                extra = set(got) - a['expected']
+                if extra:
+                    bad.append((i, 'search returned objects that do not match or are not visible: %s' % sorted(extra)))
+                if a['done'] and None not in a['got'] and set(got) != a['expected']:
+                    bad.append((i, 'search missed matching visible objects: %s' % sorted(a['expected'] - set(got))))
+            continue
+        elif op == 'findfinal' and code == OK:
+            active.pop(s, None)
+        elif code == OK and op in ('destroy', 'close', 'closeall', 'logout', 'login', 'create', 'copy', 'setattr', 'inittoken', 'fini', 'init') or op == 'newproc':
+            for a in active.values():
+                a['clean'] = False
+            if op in ('fini', 'init', 'newproc', 'close', 'closeall'):
+                if op in ('fini', 'init', 'newproc'):
+                    active = {}
+        v.apply(i, line, r)
+    return bad
